@@ -21,6 +21,7 @@ EXPLANATION = (
     "helpers; nth_of raises PendulumException exactly when the helper returned nothing. A deviation in a "
     "constant, operator or called method is a violation; a restructuring that keeps them is reported as "
     "UNVERIFIED. NOT decided: that the n-th loop lands on the right date for all 28x7x7 month shapes."
+    " Also: building nth_of's PendulumException reads no attribute from the bare weekday parameter (a plain int is accepted everywhere else)."
 )
 
 VALIDATE = ["if day_of_week is None:\n    day_of_week = self.day_of_week",
